@@ -386,7 +386,13 @@ func (d c15) Execute(c *core.Case) (res *core.Result) {
 	}
 	// ---- Sync ----
 	if len(res.Violations) == 0 {
-		d.syncPhase(c, res, r, forge, b, bRepo, &outcomes, viol)
+		race := func() {
+			// clone A records and publishes one more change on its own branch
+			t := newCommit(a, refsAll[0], "race")
+			appendEntry(a, &remoteLog, c15Log{kind: "reference", ref: refsAll[0], target: t})
+			_, _ = a.Git(nil, "push", "-q", "origin", refsAll[0]+":"+refsAll[0], rsl.Ref+":"+rsl.Ref)
+		}
+		d.syncPhase(c, res, r, forge, b, bRepo, &outcomes, viol, race)
 	}
 	shape := []string{}
 	for _, e := range remoteOnly {
@@ -416,7 +422,7 @@ func shortAll(ids []string) []string {
 }
 
 // syncPhase runs Sync on clone B and checks what moved where.
-func (d c15) syncPhase(c *core.Case, res *core.Result, r *core.Rand, forge, b *gitx.Repo, bRepo *gittuf.Repository, outcomes *[]string, viol func(class, detail string, extra ...string)) {
+func (d c15) syncPhase(c *core.Case, res *core.Result, r *core.Rand, forge, b *gitx.Repo, bRepo *gittuf.Repository, outcomes *[]string, viol func(class, detail string, extra ...string), race func()) {
 	localBefore := b.Refs()
 	forgeBefore := forge.Refs()
 	lraw, _ := world.WalkRSLGit(b, rsl.Ref)
@@ -448,6 +454,10 @@ func (d c15) syncPhase(c *core.Case, res *core.Result, r *core.Rand, forge, b *g
 				_, _ = b.Git(nil, sub...)
 				res.Stat("fault:torn-push", 1)
 				return fmt.Errorf("injected: connection reset during push")
+			case 3: // the other clone wins a race: it publishes between B's fetch and B's push
+				race()
+				res.Stat("fault:race-push", 1)
+				return nil
 			case 2: // lost acknowledgement: everything reaches the forge, the call fails
 				all := append([]string{"push", "-q", args[1]}, specs...)
 				_, _ = b.Git(nil, all...)
@@ -505,13 +515,23 @@ func (d c15) syncPhase(c *core.Case, res *core.Result, r *core.Rand, forge, b *g
 		}
 	case localAhead:
 		// entries published only together with the refs their unskipped entries name
-		newOnForge := fraw2[len(fraw):]
 		if len(fraw2) < len(fraw) {
 			viol("dropped", "the forge log shrank", feats...)
 			return
 		}
-		if len(newOnForge) > 0 {
-			want := latestUnskipped(lraw[len(fraw):])
+		onForge2 := map[string]bool{}
+		for _, e := range fraw2 {
+			onForge2[e.ID] = true
+		}
+		mine := lraw[len(fraw):]
+		published := false
+		for _, e := range mine {
+			if onForge2[e.ID] {
+				published = true
+			}
+		}
+		want := latestUnskipped(mine)
+		if published {
 			for ref, target := range want {
 				if strings.HasPrefix(ref, "refs/gittuf/") {
 					continue
@@ -525,10 +545,13 @@ func (d c15) syncPhase(c *core.Case, res *core.Result, r *core.Rand, forge, b *g
 				}
 			}
 		} else {
-			// nothing published: no branch may have been published either
-			for k, v := range forgeAfter {
-				if strings.HasPrefix(k, "refs/heads/") && forgeBefore[k] != v {
-					viol("refs-published-without-their-entries", fmt.Sprintf("%s moved on the forge but the forge log did not receive B's entries", k), feats...)
+			// B's entries did not reach the forge: none of the branches they name may have been published either
+			for ref, target := range want {
+				if strings.HasPrefix(ref, "refs/gittuf/") {
+					continue
+				}
+				if forgeAfter[ref] != forgeBefore[ref] && forgeAfter[ref] == target {
+					viol("refs-published-without-their-entries", fmt.Sprintf("%s on the forge now is %s, the state B recorded locally, but the forge log did not receive B's entries (sync error: %v)", ref, short10(target), serr), feats...)
 					return
 				}
 			}
